@@ -94,6 +94,48 @@ def structure(model):
     return out
 
 
+
+def api_name_models():
+    """Models built through the public API whose nested values duplicate a name of an enclosing scope WHILE the obvious
+    replacement (`<name>_1`, `<name>_2`) is already taken in the same or a nearer scope."""
+    out = []
+
+    def node(op, inputs, out_name, attrs=(), name=""):
+        n = ir.Node("", op, inputs=list(inputs), num_outputs=1, attributes=list(attrs), name=name)
+        n.outputs[0].name = out_name
+        return n
+    for variant in ("outer-has-x_1", "own-input-a_1", "two-levels", "chain-of-taken-names"):
+        x, x1 = ir.Value(name="x"), ir.Value(name="x_1")
+        if variant == "outer-has-x_1":
+            inner = node("Neg", [x], "x", name="inner")                       # duplicates outer `x`; `x_1` is taken by an outer input
+            use = node("Add", [inner.outputs[0], x1], "t_out", name="use")
+            body = ir.Graph([], [use.outputs[0]], nodes=[inner, use], name="body")
+        elif variant == "own-input-a_1":
+            a, a1 = ir.Value(name="x"), ir.Value(name="x_1")                   # the body's own inputs
+            inner = node("Neg", [a], "x", name="inner")                        # duplicates its own graph's input; `x_1` is the other input
+            use = node("Add", [inner.outputs[0], a1], "t_out", name="use")
+            body = ir.Graph([a, a1], [use.outputs[0]], nodes=[inner, use], name="body")
+        elif variant == "two-levels":
+            deep_n = node("Neg", [x], "x", name="deep")                        # innermost duplicates the outermost `x`
+            deep = ir.Graph([], [deep_n.outputs[0]], nodes=[deep_n], name="deep")
+            mid_v = node("Abs", [x], "x_1", name="mid")                        # the middle scope already owns `x_1` ... and the outer one too
+            holder = node("If", [x1], "h", attrs=[ir.AttrGraph("then_branch", deep)], name="holder")
+            use = node("Add", [mid_v.outputs[0], holder.outputs[0]], "t_out", name="use")
+            body = ir.Graph([], [use.outputs[0]], nodes=[mid_v, holder, use], name="body")
+        else:
+            x2 = ir.Value(name="x_2")
+            inner = node("Neg", [x], "x", name="inner")
+            inner2 = node("Neg", [x2], "x_3", name="inner2")
+            use = node("Add", [inner.outputs[0], inner2.outputs[0]], "t_out", name="use")
+            body = ir.Graph([], [use.outputs[0]], nodes=[inner, inner2, use], name="body")
+        ctl = node("If", [x], "r", attrs=[ir.AttrGraph("then_branch", body)], name="ctl")
+        fin = node("Add", [ctl.outputs[0], x1], "y", name="fin")
+        inputs = [x, x1] + ([x2] if variant == "chain-of-taken-names" else [])
+        g = ir.Graph(inputs, [fin.outputs[0]], nodes=[ctl, fin], name="main", opset_imports={"": 18})
+        out.append((f"api:{variant}", ir.Model(g, ir_version=10)))
+    return out
+
+
 def namefix_checks(failures, count):
     variants = []
     for mname, mk in models.ALL.items():
@@ -122,9 +164,10 @@ def namefix_checks(failures, count):
             p.graph.node[2].input[1] = "val_0"
             p.graph.output[1].name = "val_0"
         variants.append((f"if/{mode}", p))
+    variants += api_name_models()
     for tag, proto in variants:
         count[0] += 1
-        model = ir.from_proto(proto)
+        model = proto if isinstance(proto, ir.Model) else ir.from_proto(proto)
         before_struct = structure(model)
         before_names = {}
         for g, outer in scopes(model):
